@@ -120,6 +120,8 @@ extern __thread struct callmon *g_cm;
 void callmon_init(struct callmon *cm, uint64_t seed);
 /* generic monitored call; checks C18 (callee-saved regs, rsp, DF, MXCSR) and returns rax */
 uint64_t mcall(const char *name, void *fn, int nargs, ...);
+extern int g_abi_cov; /* --abi: MXCSR variation + per-entry-point coverage in mcall */
+void abi_flush(void);
 
 /* ------------------------------------------------------------------ guard arenas */
 enum place { PL_END = 0, PL_START = 1, PL_PLAIN = 2 };
